@@ -19,7 +19,7 @@ def work(j):
     out = []
     try:
         mutants.make_copy('/repo', d)
-        if not mutants.apply_edit(d, [(e['file'], e['old'], e['new']) for e in m['edits']]):
+        if not mutants.apply_edit(d, [(e['file'], e['old'], e['new']) for e in m.get('edits', [])]):
             return p, m['id'], ['skipped']
         env = dict(os.environ, NIX_REPO=d, NIX_NO_EVIDENCE='1')
         for q in allp:
